@@ -127,7 +127,7 @@ func cmdCrashChild(args []string) error {
 	}
 	x := &Ctx{tr: tr, crc: newCrcTable(), exp: newExpTable(), known: known, maxCas: func() uint64 { return maxCas }}
 	vdef := map[string]string{}
-	x.swapDDoc = func(coll string) error {
+	x.swapDDoc = func(coll, _ string) error {
 		nv := "B"
 		if vdef[coll] == "B" {
 			nv = "A"
